@@ -19,6 +19,13 @@ def job_backtracking_loop(n, mode, seed=0, timeout_s=10.0):
     return verify(C.optimize_contract(n, mode, True, True, prop="C10"), f"C10/backtracking-loop[n={n},{mode}]", timeout_s=timeout_s, seed=seed)
 
 
+def job_armijo(n, seed=0, timeout_s=30.0):
+    """the Armijo test the backtracking loop's contract is stated over (C11's contract, re-checked under C10)"""
+    from qverif.pyvc.verify import verify
+    from . import C11_e1 as C
+    return verify(C.armijo_contract(n, prop="C10"), f"C10/_is_doing_for_alpha[n={n}]", timeout_s=timeout_s, seed=seed)
+
+
 def job_projected_iterates(algo, n, mode, seed=0, timeout_s=30.0):
     """momentum / PFISTA loops: every iterate is a projection output"""
     from qverif.pyvc.verify import verify
@@ -37,6 +44,7 @@ def jobs(tier, seed):
     for mode in C.MODES:
         js.append(Job(f"C10/backtracking-loop/{mode}", "contracts.C10:job_backtracking_loop",
                       dict(n=2, mode=mode, seed=seed, timeout_s=30.0 if tier == "quick" else 90.0), timeout_s=600.0))
+    js.append(Job("C10/armijo/2", "contracts.C10:job_armijo", dict(n=2, seed=seed, timeout_s=30.0 if tier == "quick" else 90.0)))
     # bounded stand-in (native floats): the projected linear estimates themselves
     parts = 3 if tier == "quick" else 12
     for part in range(parts):
